@@ -201,6 +201,11 @@ def evaluate_all(limit_orders=None):
                         upd2 = StreamSeedUpdater({k: list(v) for k, v
                                                   in table.items()})
                         o2 = outcome(lambda: upd2.update_seeds(d2, r))
+                        # the state after a (possibly partially refused)
+                        # whole-dict update must not depend on the process
+                        res["dict|%s|%r|%s|%s|%s" % (
+                            "/".join(names), r, tname, fb, "/".join(order))] \
+                            = [o2, {n: st2[n].seed() for n in names}]
                         allok = all(rec[n][0] == "ok" for n in names)
                         if allok and fb == "default":
                             if o2 != "ok" or any(st2[n].seed() != rec[n][1]
@@ -215,6 +220,54 @@ def evaluate_all(limit_orders=None):
                         bad.append(("depends-on-listing-order",
                                     "table|%s|%r|%s|%s" % ("/".join(names), r,
                                                            tname, fb)))
+    # ---------------- one stream object registered under two names, and a
+    # refusal in the middle of a whole-dict update: the outcome may depend on
+    # the listing order of the dict the caller built, but never on the process
+    for names in NAME_SETS:
+        if len(names) < 2:
+            continue
+        for r in (1, 3):
+            shared = MersenneTwister(5)
+            d = {n: (shared if i < 2 else MersenneTwister(ORIG[i % 4]))
+                 for i, n in enumerate(names)}
+            out = outcome(lambda: SimpleStreamUpdater().update_seeds(d, r))
+            res["alias|%s|%r" % ("/".join(names), r)] = [
+                out, shared.seed(), draws(shared)]
+            # which name wins is not specified; only that it is the same in
+            # every process (compared through `res`)
+            if out != "ok":
+                bad.append(("aliased-stream-update-refused",
+                            "/".join(names), r, out))
+    # ---------------- the seed table is edited after the updater was built
+    for names in NAME_SETS:
+        n0 = names[0]
+        for r in (0, 1):
+            table = {}
+            upd = StreamSeedUpdater(table)
+            s = MersenneTwister(10)
+            table[n0] = [501, 502, 503]           # list added later
+            o = outcome(lambda: upd.update_seed(n0, s, r))
+            res["edit-add|%s|%r" % (n0, r)] = [o, s.seed()]
+            if o != "ok" or s.seed() != table[n0][r]:
+                bad.append(("seed-list-added-after-construction-ignored", n0,
+                            r, o, s.seed()))
+            table[n0] = [601]                     # list shortened later
+            before = s.seed()
+            o = outcome(lambda: upd.update_seed(n0, s, 1))
+            if o != "ValueError" or s.seed() != before:
+                bad.append(("replication-beyond-edited-list-not-refused", n0,
+                            o, s.seed()))
+            del table[n0]                         # list removed later
+            ref = MersenneTwister(before)
+            ref2 = MersenneTwister(10)
+            o = outcome(lambda: upd.update_seed(n0, s, r))
+            t = MersenneTwister(10)
+            SimpleStreamUpdater().update_seed(n0, t, r)
+            if o != "ok" or s.seed() != t.seed():
+                bad.append(("seed-list-removed-after-construction-not-"
+                            "served-by-fallback", n0, r, o, s.seed(),
+                            t.seed()))
+            res["edit-del|%s|%r" % (n0, r)] = [o, s.seed()]
     return res, bad
 
 
